@@ -658,6 +658,93 @@ theorem mem_batchStrings {b : List ApiTuple} {t : ApiTuple} (ht : t ∈ b) :
   unfold batchStrings
   constructor <;> exact List.mem_flatMap.mpr ⟨t, ht, by simp [strsOf]⟩
 
+/-! ## FromQuery / ToQuery -/
+
+theorem fromQuery_eq (E : Env) (T : Table) (q : ApiQuery) (hns : q.nsUnknown E = false)
+    (hsn : q.setNsUnknown E = false) :
+    fromQuery E T q = (q.assign (q.strings.map E.h), (mapStrings E T q.strings).2) := by
+  unfold fromQuery
+  simp only [hns, hsn, Bool.false_eq_true, if_false, mapStrings_ids]
+
+theorem mapUUIDs_eq (E : Env) (T : Table) (hw : T.wf) (hp : 1 ≤ E.pageSize)
+    (hperm : ∀ l, (E.keyOrder l).Perm l) (u : List Id) :
+    mapUUIDsToStrings E T u = u.map (look T) := by
+  unfold mapUUIDsToStrings
+  rw [batchFromUUIDs_eq T hw _ E.pageSize hp E.keyOrder (fun x hx => ((hperm _).mem_iff).mpr hx)]
+  rfl
+
+/-- `ToQuery (FromQuery q) = q` once the strings of `q` are readable under their ids. -/
+theorem query_roundtrip (E E' : Env) (T : Table) (q : ApiQuery)
+    (hwf : T.wf) (hchunk : 1 ≤ E.chunk) (hpage : 1 ≤ E'.pageSize) (hperm : ∀ l, (E'.keyOrder l).Perm l)
+    (hnss : E'.nss = E.nss) (hns : q.nsUnknown E = false) (hsn : q.setNsUnknown E = false)
+    (hone : q.subjectId = none ∨ q.subjectSet = none)
+    (hknown : ∀ s ∈ q.strings, (mapStrings E T q.strings).2.find (E.h s) = some s) :
+    ∃ iq, (fromQuery E T q).1 = .ok iq ∧ toQuery E' (fromQuery E T q).2 iq = .ok q := by
+  rw [fromQuery_eq E T q hns hsn]
+  have hw' := mapStrings_wf E T q.strings hchunk hwf
+  have hl : ∀ s ∈ q.strings, look (mapStrings E T q.strings).2 (E.h s) = s := by
+    intro s hs; rw [look, hknown s hs]; rfl
+  generalize (mapStrings E T q.strings).2 = T' at *
+  have hns' : q.nsUnknown E' = false := by
+    simpa [ApiQuery.nsUnknown, Env.nsKnown, hnss] using hns
+  have hsn' : q.setNsUnknown E' = false := by
+    simpa [ApiQuery.setNsUnknown, Env.nsKnown, hnss] using hsn
+  obtain ⟨ns, obj, rel, sid, sset⟩ := q
+  simp only at hone
+  cases obj <;> cases sid <;> cases sset <;>
+    first
+    | (rcases hone with h | h <;> cases h)
+    | skip
+  all_goals
+    simp [ApiQuery.strings] at hl
+    simp [ApiQuery.nsUnknown, ApiQuery.setNsUnknown] at hns' hsn'
+    simp [ApiQuery.assign, ApiQuery.strings, at?, Except.map, bind, Except.bind, pure, Except.pure,
+      toQuery, mapUUIDs_eq E' T' hw' hpage hperm, subjId, hl, hns', hsn']
+
+/-! ## ToTree -/
+
+mutual
+/-- Spec of `ToTree`: same shape, every node labelled with the table's string for its id. -/
+def labelTree (T : Table) : ITree → ATree
+  | .node ty sub cs =>
+    .node ty (match sub with | .id u => some (look T u) | .set _ _ _ => none)
+             (match sub with | .id _ => none | .set n o r => some ⟨n, look T o, r⟩) (labelTrees T cs)
+def labelTrees (T : Table) : List ITree → List ATree
+  | [] => []
+  | c :: cs => labelTree T c :: labelTrees T cs
+end
+
+mutual
+/-- Every subject-set namespace in the tree is configured. -/
+def ITree.nsOk (E : Env) : ITree → Bool
+  | .node _ sub cs => (match sub with | .set n _ _ => E.nsKnown n | .id _ => true) && ITree.nsOks E cs
+def ITree.nsOks (E : Env) : List ITree → Bool
+  | [] => true
+  | c :: cs => ITree.nsOk E c && ITree.nsOks E cs
+end
+
+mutual
+theorem toTree_eq (E : Env) (T : Table) (hw : T.wf) (hp : 1 ≤ E.pageSize) (hperm : ∀ l, (E.keyOrder l).Perm l) :
+    ∀ t : ITree, ITree.nsOk E t = true → toTree E T t = .ok (labelTree T t)
+  | .node ty sub cs, h => by
+    simp only [ITree.nsOk, Bool.and_eq_true] at h
+    unfold toTree
+    rw [toTreeList_eq E T hw hp hperm cs h.2, mapUUIDs_eq E T hw hp hperm]
+    cases sub with
+    | id u => simp [labelTree, subjId]
+    | set n o r =>
+      have : E.nsKnown n = true := h.1
+      simp [labelTree, subjId, this]
+theorem toTreeList_eq (E : Env) (T : Table) (hw : T.wf) (hp : 1 ≤ E.pageSize) (hperm : ∀ l, (E.keyOrder l).Perm l) :
+    ∀ ts : List ITree, ITree.nsOks E ts = true → toTreeList E T ts = .ok (labelTrees T ts)
+  | [], _ => by simp [toTreeList, labelTrees]
+  | c :: cs, h => by
+    simp only [ITree.nsOks, Bool.and_eq_true] at h
+    unfold toTreeList
+    rw [toTree_eq E T hw hp hperm c h.1, toTreeList_eq E T hw hp hperm cs h.2]
+    simp [labelTrees]
+end
+
 /-! ## seedOrder -/
 
 theorem seedOrder_perm (seed : Nat) (l : List Id) : (seedOrder seed l).Perm l := by
